@@ -290,7 +290,7 @@ bloom_filter_alloc<A> bloom_filter_alloc<A>::deserialize(std::istream& is, const
   const uint16_t num_hashes = read<uint16_t>(is);
   read<uint16_t>(is); // unused
   const uint64_t seed = read<uint64_t>(is);
-  const uint32_t num_longs = read<uint32_t>(is); // sized in java longs
+  const uint64_t num_longs = read<uint32_t>(is); // sized in java longs, 64 bits wide for the shifts below
   read<uint32_t>(is); // unused
   if (!is.good()) throw std::runtime_error("error reading from std::istream");
 
@@ -374,8 +374,9 @@ bloom_filter_alloc<A> bloom_filter_alloc<A>::internal_deserialize_or_wrap(void* 
   uint64_t seed;
   ptr += copy_from_mem(ptr, seed);
 
-  uint32_t num_longs;
-  ptr += copy_from_mem(ptr, num_longs); // sized in java longs
+  uint32_t num_longs32;
+  ptr += copy_from_mem(ptr, num_longs32); // sized in java longs
+  const uint64_t num_longs = num_longs32; // 64 bits wide for the shifts below
   ptr += sizeof(uint32_t); // unused 32 bits follow
 
   // if empty, stop reading
